@@ -141,9 +141,9 @@ def AgreeOut (a b : Nat) (s t : Seq) : Prop :=
 /-- **first clause of C08** for one constraint `c`, as the solver uses it: `c` passes on `s`; `t`
     differs from `s` only inside the window `[a, b)`; the constraint localized to the window (on `s`)
     and re-initialised on the local problem (whose sequence is `s`) passes on `t`, or there is no
-    localized constraint at all.  Then `c` passes on `t`. -/
-def LocalSound (ev : σ → Seq → Eval K) (lz : σ → Loc → Seq → Option σ) (ini : σ → Seq → Role → σ) (c : σ) : Prop :=
-  ∀ (a b : Nat) (s t : Seq), (ev c s).passes = true → AgreeOut a b s t →
+    localized constraint at all.  Then `c` passes on `t`.  (`n` is the length of the problem's sequence.) -/
+def LocalSound (n : Nat) (ev : σ → Seq → Eval K) (lz : σ → Loc → Seq → Option σ) (ini : σ → Seq → Role → σ) (c : σ) : Prop :=
+  ∀ (a b : Nat) (s t : Seq), s.length = n → (ev c s).passes = true → AgreeOut a b s t →
     (∀ c1, lz c ⟨a, b, 0⟩ s = some c1 → (ev (ini c1 s .constraint) t).passes = true) →
     (ev c t).passes = true
 
@@ -324,7 +324,7 @@ structure LiftHyp (ops : SpecOps σ K) (ev : σ → Seq → Eval K) (lz : σ →
   /-- the multi-variant choices of every localization of the space tile (C04: a theorem for constructed spaces) -/
   localFit : ∀ a b : Int, C15.ChoicesFit n (F.space.localized a b).multichoices
   /-- first clause of C08 for every constraint the solver evaluates -/
-  sound : ∀ c ∈ F.constraints, ops.enforced c = false → LocalSound ev lz ini c
+  sound : ∀ c ∈ F.constraints, ops.enforced c = false → LocalSound n ev lz ini c
   /-- a localized, re-initialised copy of a non-enforced constraint is not presumed enforced either -/
   enforcedKept : ∀ c ∈ F.constraints, ops.enforced c = false → ∀ l s c1, lz c l s = some c1 →
     ops.enforced (ini c1 s .constraint) = false
@@ -407,7 +407,7 @@ theorem optimizeLocation_feasible [LawfulScore K] (ops : SpecOps σ K) (ev lz in
     -- every non-enforced constraint of the whole problem passes on `ls`
     simp only [feasible, List.all_eq_true, List.mem_filter, Bool.not_eq_true', and_imp] at hs hlf ⊢
     intro c hc henf
-    apply H.sound c hc henf a b s ls (hs c hc henf) key
+    apply H.sound c hc henf a b s ls hn (hs c hc henf) key
     intro c1 hc1
     apply hlf
     · rw [hLFc, localConstraints, List.mem_map]
@@ -474,8 +474,8 @@ theorem optimize_preserves_feasible [LawfulScore K] (ops : SpecOps σ K) (ev lz 
 /-! ### non-vacuity: the hypotheses are satisfiable -/
 /-- a specification whose `localized` returns itself (EnforceChoice, non-windowed GC, budgets …) is
     trivially sound: the local verdict *is* the global one -/
-example (ev : σ → Seq → Eval K) (c : σ) : LocalSound ev (fun c _ _ => some c) (fun c _ _ => c) c :=
-  fun _ _ _ _ _ _ h => h c rfl
+example (n : Nat) (ev : σ → Seq → Eval K) (c : σ) : LocalSound n ev (fun c _ _ => some c) (fun c _ _ => c) c :=
+  fun _ _ _ _ _ _ _ h => h c rfl
 
 example : AgreeOut 1 3 "ATGCA".toList "ACCCA".toList := by
   refine ⟨rfl, ?_⟩
